@@ -10,38 +10,41 @@ Definition z4 : c4 := {| cn := 0; ch := 0; cw := 0; cc := 0 |}.
 Definition p4 (a b c d : Z) : pad4 := {| p_top := a; p_left := b; p_bottom := c; p_right := d |}.
 Definition m4 (a b c d : Z) : c4 := {| cn := a; ch := b; cw := c; cc := d |}.
 
-(* (1) a read offset along the height (SPLIT / STRIDED_SLICE along H fused into a padded or strided consumer):
-   3x3 stride-1 SAME convolution reading rows [4,10) of a 16-row tensor.  transform_with_strides_and_skirt clips the
-   rows to [0,16), not to the window: the un-split operator gets rows [3,11) with top padding 1, so OFM row 0, tap 1
-   reads row 3 where the operator (first row of its window) has row 4 *)
-Lemma read_offset_height_refuted_lemma :
+(* (1), (2) REPAIRED in /repo 6d9d641 (were: read offsets along the height ignored by the clamp / padding, read offsets
+   along the width multiplied by the stride).  The instances on which the old code was refuted, on the code as it is now:
+   (1) 3x3 stride-1 SAME convolution reading rows [4,10) of a 16-row tensor: the old transform clipped against [0,16) and
+       handed rows [3,11) with top padding 1 (OFM row 0, tap 1 read row 3 where the operator has row 4); now rows [4,10);
+   (2) 3x3 stride-2 SAME convolution reading columns [4,10) of a 16-column tensor: the old transform multiplied the offset by
+       the stride and handed columns [8,10); now columns [4,10).
+   The general statement is stripe_taps_equal_read_offset (proofs/StripeSplitProofs.v). *)
+Example read_offset_height_repaired_example :
   exists (i : tf_in) ib pt pb,
     t_split i = Some (m4 0 4 0 0, m4 1 6 16 8) /\
-    calc_padding_and_skirt PAD_SAME 3 3 1 1 16 16 (p4 0 0 0 0) = Some (p4 1 1 1 1, t_skirt i) /\
+    calc_padding_and_skirt PAD_SAME 3 3 1 1 6 16 (p4 0 0 0 0) = Some (p4 1 1 1 1, t_skirt i) /\
     transform i = Some (ib, pt, pb) /\
+    (ch (fst ib), ch (snd ib)) = (4, 10) /\
     let p := create_padding false false (p4 1 1 1 1) true true pt pb (Some (0, 16)) 16 (cw (fst ib)) (cw (snd ib)) in
-    hw_tap (ch (fst ib)) (ch (snd ib)) (p_top p) (p_bottom p) 6 1 3 0 1 = TSrc 3 /\
-    ref_tap 4 10 1 1 0 1 = TSrc 4.
+    check_stripe_taps (ch (fst ib)) (ch (snd ib)) (p_top p) (p_bottom p) 6 1 3 1 3 4 10 1 0 = true /\
+    (* what the old result (rows [3,11), pads 1/1) meant *)
+    hw_tap 3 11 1 1 6 1 3 0 1 = TSrc 3 /\ ref_tap 4 10 1 1 0 1 = TSrc 4.
 Proof.
   exists {| t_s := z4; t_e := m4 1 6 16 8; t_has_ss := true; t_sy := 1; t_sx := 1; t_skirt := p4 1 1 1 1;
             t_ifm := m4 1 16 16 8; t_dot := true; t_concat := z4; t_kdh := 3;
             t_split := Some (m4 0 4 0 0, m4 1 6 16 8); t_up := 1; t_wrap := false |}.
   eexists _, _, _. split; [reflexivity|]. split; [vm_compute; reflexivity|]. split; [vm_compute; reflexivity|].
-  vm_compute. split; reflexivity.
+  vm_compute. repeat split; reflexivity.
 Qed.
 
-(* (2) a read offset along the width with a strided consumer: 3x3 stride-2 SAME convolution reading columns [4,10) of a
-   16-column tensor.  The offset is added before the multiplication by the stride: the box is columns [8,10) (2 columns,
-   the hardware needs 6), OFM column 0 tap 0 reads column 8 where the operator has column 4 *)
-Lemma read_offset_width_refuted_lemma :
+Example read_offset_width_repaired_example :
   exists (i : tf_in) ib pt pb,
     t_split i = Some (m4 0 0 4 0, m4 1 16 6 8) /\
-    calc_padding_and_skirt PAD_SAME 3 3 2 2 16 16 (p4 0 0 0 0) = Some (p4 0 0 1 1, t_skirt i) /\
+    calc_padding_and_skirt PAD_SAME 3 3 2 2 16 6 (p4 0 0 0 0) = Some (p4 0 0 1 1, t_skirt i) /\
     transform i = Some (ib, pt, pb) /\
+    (cw (fst ib), cw (snd ib)) = (4, 10) /\
     let p := create_padding false false (p4 0 0 1 1) true true pt pb (Some (4, 6)) 16 (cw (fst ib)) (cw (snd ib)) in
-    (cw (fst ib), cw (snd ib)) = (8, 10) /\
-    hw_tap (cw (fst ib)) (cw (snd ib)) (p_left p) (p_right p) 3 2 3 0 0 = TSrc 8 /\
-    ref_tap 4 10 0 2 0 0 = TSrc 4.
+    check_stripe_taps (cw (fst ib)) (cw (snd ib)) (p_left p) (p_right p) 3 2 3 1 3 4 10 0 0 = true /\
+    (* what the old result (columns [8,10), pads 0/1) meant *)
+    hw_tap 8 10 0 1 3 2 3 0 0 = TSrc 8 /\ ref_tap 4 10 0 2 0 0 = TSrc 4.
 Proof.
   exists {| t_s := z4; t_e := m4 1 8 3 8; t_has_ss := true; t_sy := 2; t_sx := 2; t_skirt := p4 0 0 1 1;
             t_ifm := m4 1 16 16 8; t_dot := true; t_concat := z4; t_kdh := 3;
